@@ -8,7 +8,7 @@ from ..core import Undecided, attr_chain, norm, short, walk_no_nested, call_meth
 from ..paths import enumerate_paths, Path
 from ..consteval import fold_expr
 from ..report import RuleCtx
-from .c02_model import NodeModel, MPARSER, VISITOR, PRINTER, params_of
+from .c02_model import NodeModel, MPARSER, VISITOR, PRINTER, params_of, unroll_tables
 
 # Reference (DESIGN A.5, read from Parser.args/key_values): in an argument list every positional argument is followed by its
 # comma; then every keyword entry is key, colon, value followed by its comma.  All other classes: declaration (= textual) order.
@@ -86,6 +86,9 @@ def _field_map(fn: ast.FunctionDef, node: str, fields: T.Set[str]) -> T.Dict[str
     def field_of(e: ast.AST) -> T.Optional[str]:
         while isinstance(e, ast.Call):
             m = call_method(e)
+            if m == 'getattr' and len(e.args) == 2 and isinstance(e.args[0], ast.Name) and e.args[0].id == node \
+                    and isinstance(e.args[1], ast.Constant) and e.args[1].value in fields:
+                return e.args[1].value
             if m in ('iter', 'next', 'reversed', 'list', 'tuple', 'enumerate') and e.args:
                 e = e.args[0]
             elif m in ('items', 'values', 'keys') and isinstance(e.func, ast.Attribute):
@@ -143,13 +146,28 @@ def check_replay(ctx: RuleCtx, model: NodeModel) -> None:
         raise Undecided('exit_node not found in the RawPrinter hierarchy')
     emod, eqn, efn = ex
     en = params_of(efn)[1]
-    oks = []
+    edefs = _single_defs(efn)
+
+    def is_ws(e: ast.AST) -> bool:
+        if isinstance(e, ast.Name) and e.id in edefs:
+            e = edefs[e.id]
+        return norm(e) == f'{en}.whitespaces' or (isinstance(e, ast.Call) and call_method(e) == 'getattr' and len(e.args) >= 2
+                                                  and norm(e.args[0]) == en and norm(e.args[1]) == "'whitespaces'")
+    aliases = {n for n, v in edefs.items() if is_ws(v)} | {'whitespaces'}
+    silent_paths = []
     for p in enumerate_paths(efn.body, unroll=1):
-        cm = {k.replace(en, 'node'): v for k, v in p.cond_map().items()}
-        if cm.get('node.whitespaces') is True or cm.get('node.whitespaces is not None') is True or cm.get('node.whitespaces is None') is False:
-            oks.append(any(call_method(c) == 'accept' and norm(c.func.value) == f'{en}.whitespaces' for c in p.calls()))  # type: ignore[attr-defined]
-    ctx.require(bool(oks) and all(oks), f'{eqn} replays node.whitespaces when present', emod, eqn, efn,
-                'exit_node does not visit node.whitespaces: trailing whitespace/comments of every node would not be printed')
+        if p.outcome == 'raise':
+            continue
+        visits = any(call_method(c) == 'accept' and isinstance(c.func, ast.Attribute) and is_ws(c.func.value) for c in p.calls())
+        tested = any(e.kind == 'cond' and any(a in norm(e.node) for a in aliases) for e in p.events)
+        if not visits and not tested:
+            silent_paths.append(p)
+    calls_other = [c for c in walk_no_nested(efn) if isinstance(c, ast.Call) and (attr_chain(c.func) or '').startswith('self.')]
+    if silent_paths and calls_other:
+        raise Undecided(f'{eqn}: delegates to `{short(calls_other[0])}`; whether node.whitespaces is replayed there is not followed')
+    ctx.require(not silent_paths, f'{eqn} replays node.whitespaces when present', emod, eqn, efn,
+                f'on the path `{silent_paths[0].describe() if silent_paths else ""}` exit_node neither visits node.whitespaces nor tests it: '
+                'trailing whitespace/comments of every node would not be printed')
     n_cls = 0
     for cls in sorted(built):
         fields = model.node_fields(cls)
@@ -161,6 +179,7 @@ def check_replay(ctx: RuleCtx, model: NodeModel) -> None:
             _missing_visitor(ctx, model, cls)
             continue
         vmod, qn, fn, via = r
+        fn = unroll_tables(fn, vmod)     # `for f in ('a', 'b'): getattr(node, f).accept(self)` is one visit per declared name
         node = params_of(fn)[1]
         fset = {f for f, _ in fields}
         kinds = dict(fields)
@@ -168,6 +187,13 @@ def check_replay(ctx: RuleCtx, model: NodeModel) -> None:
         paths = [p for p in enumerate_paths(fn.body, unroll=1) if p.outcome != 'raise']
         seqs = [(_accepts_on(p, fn, node, fset), p) for p in paths]
         full = max(seqs, key=lambda x: len(x[0]))[0]
+        opaque = [c for c in walk_no_nested(fn) if isinstance(c, ast.Call) and (
+            ((attr_chain(c.func) or '').startswith('self.') and (attr_chain(c.func) or '')[5:] not in ('enter_node', 'exit_node'))
+            or (call_method(c) not in ('accept', 'enter_node', 'exit_node', 'getattr', 'iter', 'next', 'zip', 'zip_longest', 'items', 'keys', 'values',
+                                       'len', 'isinstance', 'enumerate', 'reversed', 'list', 'tuple')
+                and any(isinstance(a, ast.Name) and a.id == node or (isinstance(a, ast.Attribute) and norm(a.value) == node) for a in c.args)))]
+        if opaque and (full != want or any([f for f in s_ if kinds[f] == 'one'] != [f for f in want if kinds[f] == 'one'] for s_, _ in seqs)):
+            raise Undecided(f'{qn}: part of the replay of {cls} happens in `{short(opaque[0])}`, which is not followed')
         label = f'{cls} via {qn}' + (f' (delegated by {", ".join(via)})' if via else '')
         ok = ctx.require(full == want, f'{label}: replays {want} in textual order', vmod, qn, f'visit order of {cls}',
                          f'{cls} is replayed as {full}; the fields in textual order are {want}'
@@ -178,7 +204,15 @@ def check_replay(ctx: RuleCtx, model: NodeModel) -> None:
         bad = [(s, p) for s, p in seqs if [f for f in s if kinds[f] == 'one'] != ones]
         ctx.require(not bad, f'{label}: the single-node fields {ones} are visited exactly once on all {len(paths)} paths', vmod, qn,
                     f'conditional visit in {cls}', f'on the path `{bad[0][1].describe() if bad else ""}` only {bad[0][0] if bad else ""} are visited', fn)
-        ends = [p for p in paths if not (p.calls() and norm(p.calls()[-1]) == f'self.exit_node({node})')]
+        def finishes(p: Path) -> bool:
+            cs = p.calls()
+            if cs and call_method(cs[-1]) == 'exit_node' and [norm(a) for a in list(cs[-1].args) + [k.value for k in cs[-1].keywords]] == [node]:
+                return True
+            # the inlined form of exit_node: the node's own whitespace is visited last
+            if bool(cs) and call_method(cs[-1]) == 'accept' and isinstance(cs[-1].func, ast.Attribute) and norm(cs[-1].func.value) == f'{node}.whitespaces':
+                return True
+            return any(e.kind == 'cond' and f'{node}.whitespaces' in norm(e.node) for e in p.events)
+        ends = [p for p in paths if not finishes(p)]
         ctx.require(not ends, f'{label}: every path ends with exit_node(node)', vmod, qn, f'exit_node in {cls}',
                     f'a path of {qn} does not finish with self.exit_node({node}): the whitespace attached to the {cls} is not printed', fn)
     ctx.floor('non-terminal classes replayed', n_cls, 19)
@@ -308,7 +342,7 @@ def raw_fields(model: NodeModel, cls: str) -> T.Dict[str, T.List[T.List[T.Tuple[
     return out
 
 
-def check_terminals(ctx: RuleCtx, model: NodeModel, bool_map: T.Dict[str, T.Any], strip: T.Dict[str, T.Tuple[int, int]],
+def check_terminals(ctx: RuleCtx, model: NodeModel, bool_map: T.Dict[str, T.Any], strip: T.Dict[str, T.Tuple[str, str]],
                     model_kinds: T.Dict[str, T.Set[T.Any]]) -> None:
     vis = Visitors(ctx.repo)
     built = constructed_classes(model)
@@ -338,11 +372,8 @@ def check_terminals(ctx: RuleCtx, model: NodeModel, bool_map: T.Dict[str, T.Any]
                 elif isinstance(st, (ast.Assign, ast.AugAssign)) and 'self.result' in norm(st):
                     raise Undecided(f'{qn}: `{short(st)}`')
             cm0 = {k.replace(node + '.', 'node.'): v for k, v in p.cond_map().items() if k.startswith(node + '.')}
-            if cls in bool_map:
-                cases.append((p, _merge(adds0), cm0))
-            else:
-                # a conditional piece of text is a branch on its test: split the path (both truth values unless the path decides it)
-                cases += [(p, _merge(a), c) for a, c in _expand(adds0, cm0)]
+            # a conditional piece of text is a branch on its test: split the path (both truth values unless the path decides it)
+            cases += [(p, _merge(a), c) for a, c in _expand(adds0, cm0)]
         for p, adds, cm in cases:
             n += 1
             what = f'{cls} via {qn} on `{p.describe()}`' + (f' with {cm}' if len([1 for q, _, _ in cases if q is p]) > 1 else '')
@@ -355,9 +386,12 @@ def check_terminals(ctx: RuleCtx, model: NodeModel, bool_map: T.Dict[str, T.Any]
             if cls in bool_map:
                 # keyword token whose value the parser replaced by a Python constant: the printer must map it back
                 want = bool_map[cls]
-                ok = len(adds) == 1 and len(ifs) == 1 and ifs[0][1] == 'node.value' and all((ifs[0][2] if const else ifs[0][3]) == [kw] for kw, const in want)
-                ctx.require(ok, f'{what}: value mapped back to the keywords {want}', vmod, qn, f'text of {cls}',
-                            f'{cls} is printed as {adds}; the parser stores (keyword consumed, value) = {want}, so the printed text must be chosen by node.value accordingly', fn)
+                v = cm.get('node.value')
+                if v is None:
+                    raise Undecided(f'{qn}: the text of a {cls} is not chosen by a test of node.value on `{p.describe()}`')
+                exp = [kw for kw, const in want if bool(const) == v]
+                ctx.require(adds == exp, f'{what}: node.value {v} is printed as the keyword {exp}', vmod, qn, f'text of {cls}',
+                            f'{cls} with a {"true" if v else "false"} value is printed as {adds}; the parser stores (keyword consumed, value) = {want}', fn)
                 continue
             if not flds and not ifs:
                 # fixed spelling: the class name must correspond to the keyword (checked against the parser by R1)
@@ -379,34 +413,51 @@ def check_terminals(ctx: RuleCtx, model: NodeModel, bool_map: T.Dict[str, T.Any]
                                               f'(it does when {" and ".join(("" if v else "not ") + a for a, v in conj)})')
                         if not conj:
                             ok, why = False, f'node.{f} is unconditionally replaced by the constructor'
-            if ok and strip and any(t in strip for t in model_kinds.get(cls, ())):
-                # string-like tokens: the quotes/prefix the lexer stripped must be put back, for every token id this path serves
+            if ok:
+                # the text the lexer stripped around the value must be put back, for every token id this path serves
                 i = adds.index(flds[0])
-                pre, post = ''.join(adds[:i]), ''.join(adds[i + 1:])
                 if any(not isinstance(a, str) for a in adds[:i] + adds[i + 1:]):
                     raise Undecided(f'{qn}: non-constant text around the field on `{p.describe()}`')
-                for tid in sorted(t for t in model_kinds.get(cls, ()) if t in strip):
-                    isf, isml = 'fstring' in tid, 'multiline' in tid
-                    if cm.get('node.is_fstring', isf) != isf or cm.get('node.is_multiline', isml) != isml:
-                        continue
-                    q = "'''" if isml else "'"
-                    if (pre, post) != (('f' if isf else '') + q, q) or strip.get(tid) != (len(pre), len(post)):
+                pre, post = ''.join(adds[:i]), ''.join(adds[i + 1:])
+                kinds = sorted(model_kinds.get(cls, ()), key=repr)
+                if not kinds or any(not isinstance(t, str) or t not in strip for t in kinds):
+                    if pre or post:
+                        raise Undecided(f'{qn}: the token ids a {cls} is built from ({kinds}) are not all regex tokens; cannot judge {pre!r}...{post!r}')
+                    kinds = []
+                flags = tid_flags(model, cls)
+                for tid in kinds:
+                    if any(cm.get(f'node.{f}', sub in tid) != (sub in tid) for f, sub in flags.items()):
+                        continue     # this path does not serve that token id
+                    if (pre, post) != strip[tid]:
                         ok = False
                         why = (f'for a `{tid}` token the printer adds {pre!r}...{post!r} on the path `{p.describe()}`; the lexer strips '
-                               f'{strip.get(tid)} characters from a text written {("f" if isf else "") + q!r}...{q!r}')
-            elif ok:
-                ok = consts == []
-                why = f'extra text {consts} is printed around node.{flds[0][1]}'
+                               f'{strip[tid][0]!r}...{strip[tid][1]!r} from the matched text')
             ctx.require(ok, f'{what}: prints the source text field {[x[1] for x in flds]}', vmod, qn, f'text of {cls}: {p.describe()}', f'{cls}: {why}', fn)
     ctx.floor('terminal print paths', n, 12)
 
 
-def lexer_facts(ctx: RuleCtx, model: NodeModel) -> T.Tuple[T.Dict[str, T.Any], T.Dict[str, T.Tuple[int, int]]]:
+def tid_flags(model: NodeModel, cls: str) -> T.Dict[str, str]:
+    """Fields set by the constructor chain to `<constant> in token.tid` (is_multiline, is_fstring): field -> constant."""
+    out: T.Dict[str, str] = {}
+    for c in model.mro(cls):
+        for fn in c.body:
+            if isinstance(fn, ast.FunctionDef) and fn.name == '__init__':
+                for st in walk_no_nested(fn):
+                    if isinstance(st, ast.Assign) and (attr_chain(st.targets[0]) or '').startswith('self.') and isinstance(st.value, ast.Compare) \
+                            and len(st.value.ops) == 1 and isinstance(st.value.ops[0], ast.In) and isinstance(st.value.left, ast.Constant) \
+                            and isinstance(st.value.left.value, str) and norm(st.value.comparators[0]).endswith('.tid'):
+                        out[attr_chain(st.targets[0])[5:]] = st.value.left.value  # type: ignore[index]
+    return out
+
+
+def lexer_facts(ctx: RuleCtx, model: NodeModel) -> T.Tuple[T.Dict[str, T.Any], T.Dict[str, T.Tuple[str, str]]]:
     """(a) e10: which Python constant replaces the value of which keyword token, per node class;
     (b) Lexer.lex: how many characters are stripped from both ends of each string-like token."""
     mod = model.mod
     bool_map: T.Dict[str, T.List[T.Tuple[str, T.Any]]] = {}
-    for name, fn in mod.methods('Parser').items():
+    from .c02_model import unroll_tables
+    for name, fn0 in mod.methods('Parser').items():
+        fn = unroll_tables(fn0, mod)
         for p in enumerate_paths(fn.body, unroll=1):
             kw = None
             tokname = None
@@ -422,21 +473,8 @@ def lexer_facts(ctx: RuleCtx, model: NodeModel) -> T.Tuple[T.Dict[str, T.Any], T
                         if len(c.args) == 2 and isinstance(c.args[0], ast.Name) and c.args[0].id in model.classes and norm(c.args[1]) == tokname:
                             if (kw, const) not in bool_map.setdefault(c.args[0].id, []):
                                 bool_map[c.args[0].id].append((kw, const))
-    strip: T.Dict[str, T.Tuple[int, int]] = {}
-    from .c02_lex import lex_roles
-    R = lex_roles(mod)
-    lex = R['lex']
-    for st in ast.walk(lex):
-        if isinstance(st, ast.Assign) and norm(st.targets[0]) == R['value'] and isinstance(st.value, ast.Subscript) and norm(st.value.value) == R['value'] \
-                and isinstance(st.value.slice, ast.Slice):
-            sl = st.value.slice
-            for tid in ('string', 'fstring', 'multiline_string', 'multiline_fstring'):
-                arm = _arm_of(lex, st, R['tid'])
-                if arm is None or not _tid_in(ctx, mod, arm, tid, R['tid']):
-                    continue
-                lo = fold_expr(ctx.repo, mod, sl.lower, env={R['tid']: tid}) if sl.lower is not None else 0
-                hi = fold_expr(ctx.repo, mod, sl.upper, env={R['tid']: tid}) if sl.upper is not None else 0
-                strip[tid] = (lo, -hi)
+    from .c02_lex import strip_table
+    strip = strip_table(ctx)
     return bool_map, strip
 
 
@@ -453,10 +491,11 @@ def _arm_of(fn: ast.AST, st: ast.AST, tidvar: str) -> T.Optional[ast.AST]:
 
 
 def _tid_in(ctx: RuleCtx, mod: T.Any, test: ast.AST, tid: str, tidvar: str) -> bool:
-    try:
-        return bool(fold_expr(ctx.repo, mod, test, env={tidvar: tid}))
-    except Undecided:
-        return False
+    from .c02_lex import fold_cond
+    v = fold_cond(ctx.repo, mod, test, {tidvar: tid})
+    if v is None:
+        raise Undecided(f'Lexer.lex: cannot decide `{short(test)}` for token id `{tid}`')
+    return v
 
 
 def check_equality(ctx: RuleCtx, model: NodeModel) -> None:
